@@ -442,6 +442,10 @@ class Hist:
             # an open export pins version e: the request is refused and must have no effect at all
             e = r.choice(pinnable)
             self.emit("hold h %d" % e)
+            if r.random() < 0.35:
+                # a second export of the same version, closed twice: the first one still pins the version
+                self.emit("hold g %d" % e)
+                self.emit("dclose g")
             self.emit("prune %d" % n)
             self.emit("avail")
             self.emit("vexists %d" % lo)
